@@ -114,7 +114,10 @@ func casesEngines(c *caseCtx) {
 		fmt.Printf("IMPLVIOL engines %s prop=C20 key=%s\n", what, key)
 	}
 	n, eps, promos, castles := 0, 0, 0, 0
-	total := len(curatedFENs) + c.scale(120, 3000)
+	// positions in which every legal move is a concession (nothing to gain, king immobile): the move
+	// filters must still select something
+	special := append(cramped(c, c.scale(40, 400)), epEvasions(c, 10)...)
+	total := len(curatedFENs) + len(special) + c.scale(120, 3000)
 	for g := 0; g < total; g++ {
 		// every curated position as it stands (e.p. targets, castling rights), then short games from the
 		// start or a curated / random position
@@ -122,6 +125,9 @@ func casesEngines(c *caseCtx) {
 		plies := c.r.Intn(14)
 		if g < len(curatedFENs) {
 			f = curatedFENs[g]
+			plies = 0
+		} else if g < len(curatedFENs)+len(special) {
+			f = special[g-len(curatedFENs)]
 			plies = 0
 		} else {
 			switch c.r.Intn(4) {
